@@ -394,7 +394,13 @@ func forcedSharedRequestSchedule(ctx *Ctx, tag *int) {
 		toks := make([]string, n)
 		for i := range reqs {
 			toks[i] = fmt.Sprintf("q%dx7x%d", *tag, i+1)
-			reqs[i] = newWaitReq(frame.NewFrame(primitive.ProtocolVersion4, 0, &message.Query{Query: "SELECT v FROM ks.t WHERE k = 'tok:" + toks[i] + "'", Options: &message.QueryOptions{}}))
+			// a RAW frame, as every client request inside the proxy is (a *frame.Frame is only ever used by the proxy's own
+			// requests, one connection each, and its header is written in place)
+			rawReq, err := codecs.DefaultRawCodec.ConvertToRawFrame(frame.NewFrame(primitive.ProtocolVersion4, 0, &message.Query{Query: "SELECT v FROM ks.t WHERE k = 'tok:" + toks[i] + "'", Options: &message.QueryOptions{}}))
+			if err != nil {
+				panic(err)
+			}
+			reqs[i] = newWaitReq(rawReq)
 			_ = connA.Send(reqs[i])
 			_ = connB.Send(reqs[i])
 		}
